@@ -172,9 +172,9 @@ Definition update_set (U : universe) (gen : index) (txs : list atx) (from to : i
 (** ** V2TransactionSet (manager.go:1181-1234) *)
 Inductive sres := SOk (basis : index) (l : list atx) | SErr (e : rerr) | SPanic.
 
-(** repaired twice: the parent map is per slice (finding F17), and only the caller's
-    transaction is rebased from [basis] — the parents come from the pool and are already
-    valid for the tip (finding F18) *)
+(** repaired: the parent map is per slice (finding F17), only the caller's transaction is
+    rebased from [basis] — the parents come from the pool and are already valid for the tip
+    (finding F18) — and the parents are in pool order (finding F20) *)
 Definition v2_transaction_set (U : universe) (gen : index) (L : ledger) (mw : N) (tip : index)
     (p : pool) (basis : index) (t : atx) : sres :=
   let p := revalidate L mw p in
@@ -186,12 +186,12 @@ Definition v2_transaction_set (U : universe) (gen : index) (L : ledger) (mw : N)
       | ROk l => SOk tip (parents ++ l)
       end
   end.
-(** before the repairs: one parent map for both slices, and parents and transaction rebased
-    together from the caller's basis *)
+(** before the repairs: one parent map for both slices, reversed discovery order, parents
+    and transaction rebased together from the caller's basis *)
 Definition v2_transaction_set_prefix (U : universe) (gen : index) (L : ledger) (mw : N) (tip : index)
     (p : pool) (basis : index) (t : atx) : sres :=
   let p := revalidate L mw p in
-  match unconfirmed_parents (parent_map_prefix (txns p) (v2txns p)) (v2txns p) t with
+  match unconfirmed_parents_prefix (parent_map_prefix (txns p) (v2txns p)) (v2txns p) t with
   | PPanic => SPanic
   | PList parents =>
       match update_proofs U gen (parents ++ [t]) basis tip with
